@@ -1,7 +1,510 @@
-import RbdlProofs.Lemmas.Rot
-/- C03 — property theorems (being filled in) -/
+import RbdlProofs.Lemmas.L03
+import RbdlProofs.Lemmas.L03Rnea
+import RbdlProofs.Lemmas.L03Ent
+import RbdlProofs.Lemmas.L03Unit
+import RbdlProofs.Lemmas.L03Ex
+import RbdlProofs.Lemmas.L03LTL
+/-
+  C03 — the joint-space inertia matrix (`CompositeRigidBodyAlgorithm`, model: `crba`) and the
+  decomposition `tau = H q̈ + N` of `InverseDynamics`; the sparse LTL routines.
+
+  (1) `crba_Ic_closed`   composite inertias of the subtrees
+  (2) `crba_entries`, `offpath_untouched`, `offpath_zero`   every entry of `H`
+  (3) `crba_symmetric`, `crba_symmetric_zero`
+  (4) `rnea_affine`, `rnea_homogeneous`, `rnea_affine_same`   `ID` is affine in `q̈`
+  (5) `rnea_unit_eq_crba_column`, `rnea_unit_eq_crba_column_of_model`   `ID(e_c) - ID(0)` = column `c`
+      `rnea_eq_crba_mul_add`   `ID(q̈) = H q̈ + ID(0)`
+  (6) `solveLx_solves`, `solveLTx_solves`, `ltl_factor`, `ltl_solves`, `sparse_chain`, …
+
+  Vocabulary (defined in RbdlProofs/Lemmas/L03*.lean, namespace `Rbdl.L03`):
+  `ancK λ k i` = `k`-th ancestor of body `i`; `PathOK λ k i` = `i` and its first `k` ancestors are
+  movable bodies (`≠ 0`); `upT λ X k i f` = `X[..]ᵀ ⋯ X[λ i]ᵀ X[i]ᵀ f` (`k` factors);
+  `Scol w m i a`, `nS w m i` = column `a` / number of columns of `S_i` in workspace `w`;
+  `Disj m w` = the coordinate ranges `[q_i, q_i + nS i)` of different joints are disjoint;
+  `OnPath m w i r c` = `(r, c)` lies in a block (joint `i`, ancestor-or-self of `i`) or its transpose;
+  `SA w w'` = the workspaces agree on `S`, `S3`, custom `S`, `v_J`, `c_J`, `X_lambda`, `X_base`;
+  `unitVec c` = `c`-th unit vector.  `lsum`, `childrenOf`: RbdlProofs/Lemmas/Loops.lean.
+  Every theorem with hypotheses is followed by `example`s instantiating them on the branched model
+  `L03.Ex.m` over `Rat` (revoluteZ, general revolute, spherical, revoluteX joints).
+-/
 namespace Rbdl.C03
-open Lean.Grind Rbdl
-variable {α : Type} [CommRing α]
-theorem placeholder_rot_one : (M3.one : M3 α).IsRot := M3.isRot_one
+open Lean.Grind Rbdl Rbdl.Loops Rbdl.L03
+variable {α : Type} [Field α]
+
+/-- (1) composite inertias: after `crba`, `Ic[i] = I_i + Σ_{c : λ c = i} X_λ[c]ᵀ Ic[c] X_λ[c]` with the
+    final values of the children (all arrays are those of the returned workspace). -/
+theorem crba_Ic_closed (m : ModelS α) (w : WS α) (st : QS α) (H0 : MatN α) (update : Bool)
+    (htree : ∀ c, 1 ≤ c → c ≤ m.nBodies - 1 → m.lam c < c)
+    (i : Nat) (h1 : 1 ≤ i) (h2 : i ≤ m.nBodies - 1) :
+    (crba m w st H0 update).1.Ic i
+      = m.rbi i + lsum RBI.zero
+          (fun c => ((crba m w st H0 update).1.X_lambda c).applyTransposeRBI
+            ((crba m w st H0 update).1.Ic c))
+          (childrenOf m.lam (m.nBodies - 1) i) := by
+  rw [crba_eq, crbaLoop_keep (fun w => w.X_lambda) (fun _ _ => rfl), crbaLoop_Ic]
+  rw [bwd_sum m.lam _ L12.rbi_addLaws _ htree _ i (by omega), crbaInit_Ic m w st update i h1 h2]
+  rfl
+
+/-- tree order holds on the branched example model (bodies 2 and 4 hang on body 1; body 1 has the
+    two children the sum runs over) -/
+example : (∀ c, 1 ≤ c → c ≤ Ex.m.nBodies - 1 → Ex.m.lam c < c)
+    ∧ childrenOf Ex.m.lam (Ex.m.nBodies - 1) 1 = [2, 4] := ⟨Ex.m_tree, by decide⟩
+example := crba_Ic_closed Ex.m Ex.w Ex.st (fun _ _ => 0) true Ex.m_tree 1 (by decide) (by decide)
+
+/-- (2a) entries of the joint-space inertia matrix.  For a body `i`, its `k`-th ancestor
+    `j = ancK λ k i` (all bodies on the path movable: `PathOK`), a column `a` of `S_i` and a column
+    `b` of `S_j`:
+    `H(q_i + a, q_j + b) = H(q_j + b, q_i + a) = (X_λ[..]ᵀ ⋯ X_λ[i]ᵀ (Ic_i S_i,a)) · S_j,b`
+    (`upT`: transport along the path `i → j`; `k = 0` gives the diagonal block `S_iᵀ Ic_i S_i`).
+    All arrays are those of the returned workspace.  Hypotheses: tree order and pairwise disjoint
+    coordinate ranges of the joints (`Disj`). -/
+theorem crba_entries (m : ModelS α) (w : WS α) (st : QS α) (H0 : MatN α) (update : Bool)
+    (htree : ∀ c, 1 ≤ c → c ≤ m.nBodies - 1 → m.lam c < c)
+    (hd : Disj m (crba m w st H0 update).1)
+    (i : Nat) (hi1 : 1 ≤ i) (hin : i ≤ m.nBodies - 1) (k a b : Nat) (hp : PathOK m.lam k i)
+    (ha : a < nS (crba m w st H0 update).1 m i)
+    (hb : b < nS (crba m w st H0 update).1 m (ancK m.lam k i)) :
+    (crba m w st H0 update).2 ((m.joint i).qIndex + a) ((m.joint (ancK m.lam k i)).qIndex + b)
+      = (upT m.lam (crba m w st H0 update).1.X_lambda k i
+          ((crba m w st H0 update).1.Ic i * Scol (crba m w st H0 update).1 m i a)).dot
+          (Scol (crba m w st H0 update).1 m (ancK m.lam k i) b) ∧
+    (crba m w st H0 update).2 ((m.joint (ancK m.lam k i)).qIndex + b) ((m.joint i).qIndex + a)
+      = (upT m.lam (crba m w st H0 update).1.X_lambda k i
+          ((crba m w st H0 update).1.Ic i * Scol (crba m w st H0 update).1 m i a)).dot
+          (Scol (crba m w st H0 update).1 m (ancK m.lam k i) b) := by
+  rw [crba_state] at hd ha hb ⊢
+  exact loop_val m (crbaInit m w st update) htree hd _ _ (Nat.le_refl _) (Nat.le_refl _) _ i
+    (by omega) hin k a b hp ha hb
+
+/-- the hypotheses on the example: the block of the spherical joint 3 (coordinates 2..4) against its
+    grandparent, the revoluteZ joint 1 (coordinate 0) -/
+example : (∀ c, 1 ≤ c → c ≤ Ex.m.nBodies - 1 → Ex.m.lam c < c)
+    ∧ Disj Ex.m (crba Ex.m Ex.w Ex.st (fun _ _ => 0) true).1
+    ∧ PathOK Ex.m.lam 2 3 ∧ ancK Ex.m.lam 2 3 = 1
+    ∧ 2 < nS (crba Ex.m Ex.w Ex.st (fun _ _ => 0) true).1 Ex.m 3
+    ∧ 0 < nS (crba Ex.m Ex.w Ex.st (fun _ _ => 0) true).1 Ex.m (ancK Ex.m.lam 2 3) :=
+  ⟨Ex.m_tree, Ex.m_disj _, Ex.path23, rfl, by decide, by decide⟩
+example := crba_entries Ex.m Ex.w Ex.st (fun _ _ => 0) true Ex.m_tree (Ex.m_disj _) 3 (by decide)
+  (by decide) 2 2 0 Ex.path23 (by decide) (by decide)
+
+/-- the hypothesis `Disj` cannot be dropped: in a chain of two 1-DoF joints that share coordinate 0
+    (tree order and all other hypotheses hold) the diagonal entry written for body 2 is overwritten
+    by iteration 1, so the formula of `crba_entries` fails for `i = 2`, `k = 0` -/
+example : (∀ c, 1 ≤ c → c ≤ Ex.mBad.nBodies - 1 → Ex.mBad.lam c < c) ∧ PathOK Ex.mBad.lam 0 2
+    ∧ 0 < nS (crba Ex.mBad (default : WS Rat) Ex.st (fun _ _ => 0) true).1 Ex.mBad 2
+    ∧ (crba Ex.mBad (default : WS Rat) Ex.st (fun _ _ => 0) true).2
+        ((Ex.mBad.joint 2).qIndex + 0) ((Ex.mBad.joint (ancK Ex.mBad.lam 0 2)).qIndex + 0)
+      ≠ (upT Ex.mBad.lam (crba Ex.mBad (default : WS Rat) Ex.st (fun _ _ => 0) true).1.X_lambda 0 2
+          ((crba Ex.mBad (default : WS Rat) Ex.st (fun _ _ => 0) true).1.Ic 2
+            * Scol (crba Ex.mBad (default : WS Rat) Ex.st (fun _ _ => 0) true).1 Ex.mBad 2 0)).dot
+          (Scol (crba Ex.mBad (default : WS Rat) Ex.st (fun _ _ => 0) true).1 Ex.mBad
+            (ancK Ex.mBad.lam 0 2) 0) :=
+  ⟨Ex.mBad_tree, Ex.mBad_path, by decide +kernel, by decide +kernel⟩
+
+/-- (2b) entries `(r, c)` outside all blocks `(i, ancestor of i)` and their transposes are left as
+    passed in -/
+theorem offpath_untouched (m : ModelS α) (w : WS α) (st : QS α) (H0 : MatN α) (update : Bool)
+    (r c : Nat)
+    (h : ∀ i, 1 ≤ i → i ≤ m.nBodies - 1 → ¬ OnPath m (crba m w st H0 update).1 i r c) :
+    (crba m w st H0 update).2 r c = H0 r c := by
+  rw [crba_state] at h ⊢
+  exact loop_frame m (crbaInit m w st update) _ _ (Nat.le_refl _) _ r c
+    (fun i h1 h2 => h i (by omega) h2)
+
+/-- bodies 3 (coordinates 2..4) and 4 (coordinate 5) lie on different branches: entry `(3, 5)` is
+    off all paths -/
+example : ∀ i, 1 ≤ i → i ≤ Ex.m.nBodies - 1 →
+    ¬ OnPath Ex.m (crba Ex.m Ex.w Ex.st (fun _ _ => 0) true).1 i 3 5 := Ex.offpath35 _
+example : (crba Ex.m Ex.w Ex.st (fun _ _ => 0) true).2 3 5 = 0 :=
+  offpath_untouched Ex.m Ex.w Ex.st _ true 3 5 (Ex.offpath35 _)
+
+/-- (2b) … in particular they stay `0` for a zero-initialised `H` -/
+theorem offpath_zero (m : ModelS α) (w : WS α) (st : QS α) (update : Bool) (r c : Nat)
+    (h : ∀ i, 1 ≤ i → i ≤ m.nBodies - 1 →
+      ¬ OnPath m (crba m w st (fun _ _ => 0) update).1 i r c) :
+    (crba m w st (fun _ _ => 0) update).2 r c = 0 :=
+  offpath_untouched m w st _ update r c h
+
+/-- (3) `crba` returns a symmetric matrix when the matrix passed in is symmetric (in particular for
+    a zero-initialised `H`); no hypothesis on the model or the workspace is needed, and the
+    statement holds for all index pairs (so in particular on `[0, dofCount)²`). -/
+theorem crba_symmetric (m : ModelS α) (w : WS α) (st : QS α) (H0 : MatN α) (update : Bool)
+    (hH0 : ∀ r c, H0 r c = H0 c r) (r c : Nat) :
+    (crba m w st H0 update).2 r c = (crba m w st H0 update).2 c r := by
+  rw [crba_eq]
+  exact forDown_inv (fun s : WS α × MatN α => SymmH s.2) (crbaBody m) _ _
+    (fun i s _ _ hs => crbaStepH_symm m _ i s.2 hs) (crbaInit m w st update, H0) hH0 r c
+
+theorem crba_symmetric_zero (m : ModelS α) (w : WS α) (st : QS α) (update : Bool) (r c : Nat) :
+    (crba m w st (fun _ _ => 0) update).2 r c = (crba m w st (fun _ _ => 0) update).2 c r :=
+  crba_symmetric m w st _ update (fun _ _ => rfl) r c
+
+/-- a symmetric, non-zero in/out matrix -/
+example : ∀ r c, (fun r c : Nat => ((r + c : Nat) : Rat)) r c = (fun r c => ((r + c : Nat) : Rat)) c r :=
+  fun r c => by show ((r + c : Nat) : Rat) = ((c + r : Nat) : Rat); rw [Nat.add_comm]
+example := crba_symmetric Ex.m Ex.w Ex.st (fun r c => ((r + c : Nat) : Rat)) true
+  (fun r c => by show ((r + c : Nat) : Rat) = ((c + r : Nat) : Rat); rw [Nat.add_comm])
+
+/-- (4a) inverse dynamics is affine in the acceleration:
+    `ID(q̈ + q̈') - ID(q̈') = ID(q̈) - ID(0)` in every component.  The four calls may start from
+    different workspaces as long as these agree on the fields that `jcalc` reads (`L03.SA`: the
+    motion subspaces `S`, `S3`, custom `S`, `v_J`, `c_J`, `X_lambda`, `X_base`; the velocity /
+    acceleration / force arrays may hold anything), e.g. the workspace returned by the previous
+    call; the `Tau` in/out arguments must be in the same relation (e.g. all equal). -/
+theorem rnea_affine (m : ModelS α) (st : QS α) (qd : VecN α) (fext : Option (Nat → SV α))
+    (htree : ∀ i, 1 ≤ i → i ≤ m.nBodies - 1 → m.lam i < i)
+    (har : ∀ i, 1 ≤ i → i ≤ m.nBodies - 1 → m.arity i ≠ .other)
+    (w1 w2 w3 w4 : WS α) (h2 : SA w1 w2) (h3 : SA w1 w3) (h4 : SA w1 w4)
+    (qdd qdd' t1 t2 t3 t4 : VecN α) (ht : ∀ k, t1 k - t2 k = t3 k - t4 k) (k : Nat) :
+    (inverseDynamics m w1 st qd (fun j => qdd j + qdd' j) t1 fext).2 k
+        - (inverseDynamics m w2 st qd qdd' t2 fext).2 k
+      = (inverseDynamics m w3 st qd qdd t3 fext).2 k
+        - (inverseDynamics m w4 st qd (fun _ => 0) t4 fext).2 k := by
+  have := id_lin4 m st qd fext htree har w1 w2 w3 w4 h2 h3 h4 (s := 1)
+    (q1 := fun j => qdd j + qdd' j) (q2 := qdd') (q3 := qdd) (q4 := fun _ => 0)
+    (t1 := t1) (t2 := t2) (t3 := t3) (t4 := t4)
+    (fun k => by unfold Lin4s; grind) (fun k => by unfold Lin4s; have := ht k; grind) k
+  unfold Lin4s at this
+  grind
+
+/-- (4b) … and homogeneous: `ID(s q̈) - ID(0) = s (ID(q̈) - ID(0))`. -/
+theorem rnea_homogeneous (m : ModelS α) (st : QS α) (qd : VecN α) (fext : Option (Nat → SV α))
+    (htree : ∀ i, 1 ≤ i → i ≤ m.nBodies - 1 → m.lam i < i)
+    (har : ∀ i, 1 ≤ i → i ≤ m.nBodies - 1 → m.arity i ≠ .other)
+    (w1 w2 w3 w4 : WS α) (h2 : SA w1 w2) (h3 : SA w1 w3) (h4 : SA w1 w4)
+    (s : α) (qdd t1 t2 t3 t4 : VecN α) (ht : ∀ k, t1 k - t2 k = s * (t3 k - t4 k)) (k : Nat) :
+    (inverseDynamics m w1 st qd (fun j => s * qdd j) t1 fext).2 k
+        - (inverseDynamics m w2 st qd (fun _ => 0) t2 fext).2 k
+      = s * ((inverseDynamics m w3 st qd qdd t3 fext).2 k
+        - (inverseDynamics m w4 st qd (fun _ => 0) t4 fext).2 k) :=
+  id_lin4 m st qd fext htree har w1 w2 w3 w4 h2 h3 h4 (s := s)
+    (q1 := fun j => s * qdd j) (q2 := fun _ => 0) (q3 := qdd) (q4 := fun _ => 0)
+    (fun k => by unfold Lin4s; grind) ht k
+
+/-- (4) for one workspace and one `Tau` argument -/
+theorem rnea_affine_same (m : ModelS α) (w : WS α) (st : QS α) (qd tau : VecN α)
+    (fext : Option (Nat → SV α))
+    (htree : ∀ i, 1 ≤ i → i ≤ m.nBodies - 1 → m.lam i < i)
+    (har : ∀ i, 1 ≤ i → i ≤ m.nBodies - 1 → m.arity i ≠ .other)
+    (qdd qdd' : VecN α) (s : α) (k : Nat) :
+    (inverseDynamics m w st qd (fun j => qdd j + qdd' j) tau fext).2 k
+        - (inverseDynamics m w st qd qdd' tau fext).2 k
+      = (inverseDynamics m w st qd qdd tau fext).2 k
+        - (inverseDynamics m w st qd (fun _ => 0) tau fext).2 k ∧
+    (inverseDynamics m w st qd (fun j => s * qdd j) tau fext).2 k
+        - (inverseDynamics m w st qd (fun _ => 0) tau fext).2 k
+      = s * ((inverseDynamics m w st qd qdd tau fext).2 k
+        - (inverseDynamics m w st qd (fun _ => 0) tau fext).2 k) :=
+  ⟨rnea_affine m st qd fext htree har w w w w (SA.rfl' w) (SA.rfl' w) (SA.rfl' w) qdd qdd'
+      tau tau tau tau (fun _ => rfl) k,
+   rnea_homogeneous m st qd fext htree har w w w w (SA.rfl' w) (SA.rfl' w) (SA.rfl' w) s qdd
+      tau tau tau tau (fun _ => by grind) k⟩
+
+/-- the hypotheses on the example model (joints of arity one and three), with an external force,
+    workspaces that differ in the velocity / acceleration / force arrays, one `Tau` argument -/
+example : (∀ i, 1 ≤ i → i ≤ Ex.m.nBodies - 1 → Ex.m.lam i < i)
+    ∧ (∀ i, 1 ≤ i → i ≤ Ex.m.nBodies - 1 → Ex.m.arity i ≠ .other)
+    ∧ SA Ex.w Ex.w' ∧ Ex.w.a 1 ≠ Ex.w'.a 1 :=
+  ⟨Ex.m_tree, Ex.m_arity', ⟨rfl, rfl, rfl, rfl, rfl, rfl, rfl⟩, by decide⟩
+example := rnea_affine Ex.m Ex.st Ex.qd (some Ex.fe) Ex.m_tree Ex.m_arity' Ex.w Ex.w' Ex.w Ex.w'
+  ⟨rfl, rfl, rfl, rfl, rfl, rfl, rfl⟩ (SA.rfl' _) ⟨rfl, rfl, rfl, rfl, rfl, rfl, rfl⟩
+  Ex.qdd Ex.qdd' Ex.tau0 Ex.tau0 Ex.tau0 Ex.tau0 (fun _ => rfl)
+example := rnea_homogeneous Ex.m Ex.st Ex.qd (some Ex.fe) Ex.m_tree Ex.m_arity' Ex.w Ex.w' Ex.w
+  Ex.w' ⟨rfl, rfl, rfl, rfl, rfl, rfl, rfl⟩ (SA.rfl' _) ⟨rfl, rfl, rfl, rfl, rfl, rfl, rfl⟩
+  (7/3) Ex.qdd Ex.tau0 Ex.tau0 Ex.tau0 Ex.tau0 (fun _ => by unfold Ex.tau0; grind)
+
+/-- (5) the link between the two algorithms, for arbitrary trees of 1-DoF and 3-DoF joints:
+    `ID(e_c) - ID(0)` is column `c` of the matrix `crba` computes (from a zero matrix, without
+    kinematics update) on any workspace `wc` that holds the link transforms and motion subspaces
+    `inverseDynamics` leaves behind (e.g. the workspace `inverseDynamics` returns; the joint state
+    `stc` is not read), for every coordinate `c = q_j + b` of a joint `j` and **every** row `r`.
+    Hypotheses: tree order, arities one / three, virtual bodies carry the zero inertia, the link
+    transforms left by `inverseDynamics` are rotations + translations, disjoint coordinate ranges. -/
+theorem rnea_unit_eq_crba_column (m : ModelS α) (w : WS α) (st : QS α) (qd tau : VecN α)
+    (fext : Option (Nat → SV α))
+    (htree : ∀ c, 1 ≤ c → c ≤ m.nBodies - 1 → m.lam c < c)
+    (har : ∀ c, 1 ≤ c → c ≤ m.nBodies - 1 → m.arity c = .one ∨ m.arity c = .three)
+    (hvirt : ∀ i, 1 ≤ i → i ≤ m.nBodies - 1 → (m.body i).isVirtual = true → m.rbi i = RBI.zero)
+    (hrot : ∀ i, 1 ≤ i → i ≤ m.nBodies - 1 →
+      ((inverseDynamics m w st qd (fun _ => 0) tau fext).1.X_lambda i).E.IsRot)
+    (hd : Disj m (inverseDynamics m w st qd (fun _ => 0) tau fext).1)
+    (wc : WS α) (stc : QS α)
+    (hXc : wc.X_lambda = (inverseDynamics m w st qd (fun _ => 0) tau fext).1.X_lambda)
+    (hSc : wc.Scols m = (inverseDynamics m w st qd (fun _ => 0) tau fext).1.Scols m)
+    (j : Nat) (hj1 : 1 ≤ j) (hjn : j ≤ m.nBodies - 1) (b : Nat)
+    (hb : b < nS (inverseDynamics m w st qd (fun _ => 0) tau fext).1 m j) (r : Nat) :
+    (inverseDynamics m w st qd (unitVec ((m.joint j).qIndex + b)) tau fext).2 r
+        - (inverseDynamics m w st qd (fun _ => 0) tau fext).2 r
+      = (crba m wc stc (fun _ _ => 0) false).2 r ((m.joint j).qIndex + b) :=
+  id_unit_col m w st qd tau fext htree har hvirt hrot hd wc stc hXc hSc j hj1 hjn b hb r
+
+/-- (5) with the rotation hypothesis discharged from the model: joint frames are rotations and the
+    joint state is consistent (`c² + s² = 1`, unit axes, unit quaternions: `ModelS.jointUnit`) -/
+theorem rnea_unit_eq_crba_column_of_model (m : ModelS α) (w : WS α) (st : QS α) (qd tau : VecN α)
+    (fext : Option (Nat → SV α))
+    (htree : ∀ c, 1 ≤ c → c ≤ m.nBodies - 1 → m.lam c < c)
+    (har : ∀ c, 1 ≤ c → c ≤ m.nBodies - 1 → m.arity c = .one ∨ m.arity c = .three)
+    (hvirt : ∀ i, 1 ≤ i → i ≤ m.nBodies - 1 → (m.body i).isVirtual = true → m.rbi i = RBI.zero)
+    (hjc : ∀ i, 1 ≤ i → i ≤ m.nBodies - 1 → (m.joint i).jt.hasJcalc = true)
+    (hfr : ∀ i, 1 ≤ i → i ≤ m.nBodies - 1 → (m.XT_ i).E.IsRot)
+    (hu : ∀ i, 1 ≤ i → i ≤ m.nBodies - 1 → m.jointUnit i st)
+    (hd : Disj m (inverseDynamics m w st qd (fun _ => 0) tau fext).1)
+    (j : Nat) (hj1 : 1 ≤ j) (hjn : j ≤ m.nBodies - 1) (b : Nat)
+    (hb : b < nS (inverseDynamics m w st qd (fun _ => 0) tau fext).1 m j) (r : Nat) :
+    (inverseDynamics m w st qd (unitVec ((m.joint j).qIndex + b)) tau fext).2 r
+        - (inverseDynamics m w st qd (fun _ => 0) tau fext).2 r
+      = (crba m (inverseDynamics m w st qd (fun _ => 0) tau fext).1 st (fun _ _ => 0) false).2 r
+          ((m.joint j).qIndex + b) :=
+  id_unit_col m w st qd tau fext htree har hvirt
+    (fun i h1 h2 => by
+      rw [id_X_lambda m w st qd _ tau fext i h1 h2]
+      exact jcalcX_isRot m i st _ (hjc i h1 h2) (hfr i h1 h2) (hu i h1 h2))
+    hd _ st rfl rfl j hj1 hjn b hb r
+
+/-- all hypotheses of (5) on the example model, with joint velocities, gravity and an external
+    force; column `3 = q_3 + 1` (second coordinate of the spherical joint) -/
+example : (∀ c, 1 ≤ c → c ≤ Ex.m.nBodies - 1 → Ex.m.lam c < c)
+    ∧ (∀ c, 1 ≤ c → c ≤ Ex.m.nBodies - 1 → Ex.m.arity c = .one ∨ Ex.m.arity c = .three)
+    ∧ (∀ i, 1 ≤ i → i ≤ Ex.m.nBodies - 1 → (Ex.m.body i).isVirtual = true →
+        Ex.m.rbi i = RBI.zero)
+    ∧ (∀ i, 1 ≤ i → i ≤ Ex.m.nBodies - 1 →
+        ((inverseDynamics Ex.m Ex.w Ex.st Ex.qd (fun _ => 0) Ex.tau0 (some Ex.fe)).1.X_lambda
+          i).E.IsRot)
+    ∧ Disj Ex.m (inverseDynamics Ex.m Ex.w Ex.st Ex.qd (fun _ => 0) Ex.tau0 (some Ex.fe)).1
+    ∧ 1 < nS (inverseDynamics Ex.m Ex.w Ex.st Ex.qd (fun _ => 0) Ex.tau0 (some Ex.fe)).1 Ex.m 3 :=
+  ⟨Ex.m_tree, Ex.m_arity, Ex.m_virt, Ex.id_rot _ _ _ _ _, Ex.m_disj _, by show 1 < 3; omega⟩
+example (r : Nat) :=
+  rnea_unit_eq_crba_column Ex.m Ex.w Ex.st Ex.qd Ex.tau0 (some Ex.fe) Ex.m_tree
+    Ex.m_arity Ex.m_virt (Ex.id_rot _ _ _ _ _) (Ex.m_disj _) _ Ex.st rfl rfl 3 (by decide)
+    (by decide) 1 (by show 1 < 3; omega) r
+/-- the common value in row 0 (coupling of the spherical joint with the root joint), evaluated -/
+example :
+    (crba Ex.m (inverseDynamics Ex.m Ex.w Ex.st Ex.qd (fun _ => 0) Ex.tau0 (some Ex.fe)).1
+      Ex.st (fun _ _ => 0) false).2 0 3 = 4333 / 2250 := by decide +kernel
+
+/-- (4)+(5) **`tau = H q̈ + N`**: for an acceleration vector supported on the first `N` coordinates,
+    all of which belong to joints, `InverseDynamics(q, q̇, q̈) = H(q) q̈ + InverseDynamics(q, q̇, 0)`
+    in every component, `H` the matrix computed by `crba` (`sumTo N f = Σ_{c<N} f c`; take
+    `N = dof_count`). -/
+theorem rnea_eq_crba_mul_add (m : ModelS α) (w : WS α) (st : QS α) (qd tau : VecN α)
+    (fext : Option (Nat → SV α))
+    (htree : ∀ c, 1 ≤ c → c ≤ m.nBodies - 1 → m.lam c < c)
+    (har : ∀ c, 1 ≤ c → c ≤ m.nBodies - 1 → m.arity c = .one ∨ m.arity c = .three)
+    (hvirt : ∀ i, 1 ≤ i → i ≤ m.nBodies - 1 → (m.body i).isVirtual = true → m.rbi i = RBI.zero)
+    (hrot : ∀ i, 1 ≤ i → i ≤ m.nBodies - 1 →
+      ((inverseDynamics m w st qd (fun _ => 0) tau fext).1.X_lambda i).E.IsRot)
+    (hd : Disj m (inverseDynamics m w st qd (fun _ => 0) tau fext).1)
+    (N : Nat)
+    (hcov : ∀ c, c < N → ∃ j b, 1 ≤ j ∧ j ≤ m.nBodies - 1 ∧
+      b < nS (inverseDynamics m w st qd (fun _ => 0) tau fext).1 m j ∧ c = (m.joint j).qIndex + b)
+    (x : VecN α) (r : Nat) :
+    (inverseDynamics m w st qd (fun k => if k < N then x k else 0) tau fext).2 r
+      = sumTo N (fun c =>
+          (crba m (inverseDynamics m w st qd (fun _ => 0) tau fext).1 st (fun _ _ => 0) false).2 r c
+            * x c)
+        + (inverseDynamics m w st qd (fun _ => 0) tau fext).2 r := by
+  have har' : ∀ i, 1 ≤ i → i ≤ m.nBodies - 1 → m.arity i ≠ .other := fun i h1 h2 => by
+    rcases har i h1 h2 with e | e <;> rw [e] <;> simp
+  induction N with
+  | zero =>
+    have : (fun k => if k < 0 then x k else (0 : α)) = fun _ => 0 := by
+      funext k; rw [if_neg (by omega)]
+    rw [this, sumTo]; grind
+  | succ N ih =>
+    obtain ⟨j, b, hj1, hjn, hb, hc⟩ := hcov N (by omega)
+    have e : (fun k => if k < N + 1 then x k else (0 : α))
+        = fun k => (fun k' => x N * (unitVec N : VecN α) k') k
+            + (fun k' => if k' < N then x k' else 0) k := by
+      funext k
+      show (if k < N + 1 then x k else 0)
+        = x N * (if k = N then 1 else 0) + (if k < N then x k else 0)
+      by_cases h1 : k < N
+      · rw [if_pos (by omega), if_pos h1, if_neg (by omega)]; grind
+      · by_cases h2 : k = N
+        · subst h2; rw [if_pos (by omega), if_pos rfl, if_neg h1]; grind
+        · rw [if_neg (by omega), if_neg h2, if_neg h1]; grind
+    have hA := (rnea_affine_same m w st qd tau fext htree har'
+      (fun k' => x N * (unitVec N : VecN α) k') (fun k' => if k' < N then x k' else 0) 0 r).1
+    have hH := (rnea_affine_same m w st qd tau fext htree har' (unitVec N) (unitVec N) (x N) r).2
+    have hU := rnea_unit_eq_crba_column m w st qd tau fext htree har hvirt hrot hd _ st rfl rfl
+      j hj1 hjn b hb r
+    rw [← hc] at hU
+    have hI := ih (fun c hc => hcov c (by omega))
+    rw [e, sumTo]
+    grind
+
+/-- every coordinate `< 6 = dof_count` of the example model belongs to a joint -/
+example : ∀ c, c < 6 → ∃ j b, 1 ≤ j ∧ j ≤ Ex.m.nBodies - 1 ∧
+    b < nS (inverseDynamics Ex.m Ex.w Ex.st Ex.qd (fun _ => 0) Ex.tau0 (some Ex.fe)).1 Ex.m j ∧
+    c = (Ex.m.joint j).qIndex + b := Ex.m_cov _
+example (x : VecN Rat) (r : Nat) :=
+  rnea_eq_crba_mul_add Ex.m Ex.w Ex.st Ex.qd Ex.tau0 (some Ex.fe) Ex.m_tree Ex.m_arity Ex.m_virt
+    (Ex.id_rot _ _ _ _ _) (Ex.m_disj _) 6 (Ex.m_cov _) x r
+
+/-! # (6) the sparse LTL routines -/
+/-
+  C03 — the sparse LTL routines (`rbdl_mathutils.cc:262-320`; model: `Rbdl/LTL.lean`):
+  `SparseSolveLx` solves `L y = b`, `SparseSolveLTx` solves `Lᵀ y = b`, `SparseFactorizeLTL`
+  computes a lower triangular `L` with `Lᵀ L = H`; together they solve `H x = b`.
+
+  Helper lemmas and the concrete data of the examples: `RbdlProofs/Lemmas/L03LTL.lean`
+  (namespace `Rbdl.L03.LTL`).  `sumTo n f = Σ_{k<n} f k`.  Every theorem with hypotheses is followed
+  by an `example` instantiating it over `Rat`.
+-/
+
+section LTL
+open Rbdl.LTL Rbdl.L03.LTL
+
+
+/-! ## 1. `SparseSolveLx` -/
+
+/-- **ltl_solves (Lx)**, as the code computes it: only the lower triangle of `L` is read and
+    `Σ_{j ≤ r} L(r,j) y(j) = b(r)`; `L` need not be triangular. -/
+theorem solveLx_solves_lower (n : Nat) (L : MatN α) (b : VecN α) (hd : ∀ i, i < n → L i i ≠ 0) :
+    ∀ r, r < n → sumTo (r+1) (fun j => L r j * solveLx n L b j) = b r :=
+  (solveLx_spec n L b hd).1
+example : ∀ r, r < 3 → sumTo (r+1) (fun j => Ex.L r j * solveLx 3 Ex.L Ex.b j) = Ex.b r :=
+  solveLx_solves_lower 3 Ex.L Ex.b Ex.L_diag
+
+/-- **ltl_solves (Lx)**: `L y = b` for lower triangular `L` with non-zero diagonal -/
+theorem solveLx_solves (n : Nat) (L : MatN α) (b : VecN α) (hd : ∀ i, i < n → L i i ≠ 0)
+    (hL : ∀ i j, i < j → j < n → L i j = 0) :
+    ∀ r, r < n → sumTo n (fun j => L r j * solveLx n L b j) = b r := by
+  intro r hr
+  rw [sumTo_lower (r+1) n _ (by omega) (fun k h1 h2 => by rw [hL r k (by omega) h2]; grind)]
+  exact solveLx_solves_lower n L b hd r hr
+example : ∀ r, r < 3 → sumTo 3 (fun j => Ex.L r j * solveLx 3 Ex.L Ex.b j) = Ex.b r :=
+  solveLx_solves 3 Ex.L Ex.b Ex.L_diag Ex.L_lower
+
+/-- the entries beyond the block are not written (no hypothesis needed) -/
+theorem solveLx_outside (n : Nat) (L : MatN α) (b : VecN α) :
+    ∀ r, n ≤ r → solveLx n L b r = b r :=
+  fun r hr => L03.LTL.solveLx_outside n L b r hr
+
+/-! ## 2. `SparseSolveLTx` -/
+
+/-- **ltl_solves (LTx)**: `Lᵀ y = b` for lower triangular `L` with non-zero diagonal -/
+theorem solveLTx_solves (n : Nat) (L : MatN α) (b : VecN α) (hd : ∀ i, i < n → L i i ≠ 0)
+    (hL : ∀ i j, i < j → j < n → L i j = 0) :
+    ∀ c, c < n → sumTo n (fun i => L i c * solveLTx n L b i) = b c :=
+  (solveLTx_spec n L b hd hL).1
+example : ∀ c, c < 3 → sumTo 3 (fun i => Ex.L i c * solveLTx 3 Ex.L Ex.b i) = Ex.b c :=
+  solveLTx_solves 3 Ex.L Ex.b Ex.L_diag Ex.L_lower
+
+theorem solveLTx_outside (n : Nat) (L : MatN α) (b : VecN α) :
+    ∀ r, n ≤ r → solveLTx n L b r = b r :=
+  fun r hr => L03.LTL.solveLTx_outside n L b r hr
+
+/-! ## 3. `SparseFactorizeLTL` -/
+
+/-- **ltl_factor**: for `H` symmetric on `[0,n)²` and a function `sqrt` that returns an exact
+    non-zero root of every pivot the run meets (`ltlPivot sqrt n H m` is the value of `H(m,m)` at
+    the moment its root is taken), `L = factorizeLTL sqrt n H` is lower triangular, `Lᵀ L = H` on the
+    block, its diagonal consists of the roots of the pivots, and nothing outside the block is
+    written. -/
+theorem ltl_factor (sqrt : α → α) (n : Nat) (H : MatN α)
+    (hsym : ∀ i j, i < n → j < n → H i j = H j i)
+    (hsq : ∀ m, m < n →
+      sqrt (ltlPivot sqrt n H m) * sqrt (ltlPivot sqrt n H m) = ltlPivot sqrt n H m
+      ∧ sqrt (ltlPivot sqrt n H m) ≠ 0) :
+    (∀ i j, i < j → j < n → factorizeLTL sqrt n H i j = 0)
+    ∧ (∀ i j, i < n → j < n →
+        sumTo n (fun k => factorizeLTL sqrt n H k i * factorizeLTL sqrt n H k j) = H i j)
+    ∧ (∀ i, i < n → factorizeLTL sqrt n H i i ≠ 0)
+    ∧ (∀ i j, n ≤ i ∨ n ≤ j → factorizeLTL sqrt n H i j = H i j) := by
+  obtain ⟨hu, hl, ho⟩ := ltlInv_final sqrt n H hsq
+  have low : ∀ i j, j ≤ i → i < n →
+      sumTo n (fun k => factorizeLTL sqrt n H k i * factorizeLTL sqrt n H k j) = H i j := by
+    intro i j h1 h2
+    have e := hl i j h1 h2
+    simp only [sumFrom_zero, Nat.not_lt_zero, if_false] at e
+    rw [e]; grind
+  refine ⟨hu, ?_, ?_, ho⟩
+  · intro i j hi hj
+    by_cases hij : j ≤ i
+    · exact low i j hij hi
+    · rw [hsym i j hi hj, ← low j i (by omega) hj]
+      apply sumTo_congr; intro k _; grind
+  · intro i hi
+    rw [factorizeLTL_diag sqrt n H i hi]
+    exact (hsq i hi).2
+
+/-- the hypotheses of `ltl_factor` on a concrete symmetric positive definite `H` with pivots
+    `1, 9, 4` and a look-up "root" `Ex.sqrtQ` that is exact on them -/
+example : (∀ i j, i < 3 → j < 3 → Ex.H i j = Ex.H j i)
+    ∧ (∀ m, m < 3 →
+      Ex.sqrtQ (ltlPivot Ex.sqrtQ 3 Ex.H m) * Ex.sqrtQ (ltlPivot Ex.sqrtQ 3 Ex.H m)
+        = ltlPivot Ex.sqrtQ 3 Ex.H m
+      ∧ Ex.sqrtQ (ltlPivot Ex.sqrtQ 3 Ex.H m) ≠ 0) := ⟨Ex.H_symm, Ex.H_roots⟩
+example : ∀ i j, i < 3 → j < 3 →
+    sumTo 3 (fun k => factorizeLTL Ex.sqrtQ 3 Ex.H k i * factorizeLTL Ex.sqrtQ 3 Ex.H k j)
+      = Ex.H i j :=
+  (ltl_factor Ex.sqrtQ 3 Ex.H Ex.H_symm Ex.H_roots).2.1
+/-- the factor of the example is the non-trivial `Ex.L` (entries `2, 1, 3, -1, 2, 1`) -/
+example : (∀ i j, i < 4 → j < 4 → factorizeLTL Ex.sqrtQ 3 Ex.H i j = Ex.L i j)
+    ∧ Ex.L 1 0 ≠ 0 ∧ Ex.L 2 0 ≠ 0 ∧ Ex.L 2 1 ≠ 0 := ⟨Ex.H_factor, Ex.L_offdiag⟩
+
+/-- `ltl_factor` with the hypothesis on `sqrt` stated through a predicate `P` on the scalars
+    (e.g. positivity in an ordered field) that holds for every pivot -/
+theorem ltl_factor_of_pred (sqrt : α → α) (P : α → Prop) (n : Nat) (H : MatN α)
+    (hsym : ∀ i j, i < n → j < n → H i j = H j i)
+    (hs : ∀ x, P x → sqrt x * sqrt x = x ∧ sqrt x ≠ 0)
+    (hP : ∀ m, m < n → P (ltlPivot sqrt n H m)) :
+    (∀ i j, i < j → j < n → factorizeLTL sqrt n H i j = 0)
+    ∧ (∀ i j, i < n → j < n →
+        sumTo n (fun k => factorizeLTL sqrt n H k i * factorizeLTL sqrt n H k j) = H i j)
+    ∧ (∀ i, i < n → factorizeLTL sqrt n H i i ≠ 0)
+    ∧ (∀ i j, n ≤ i ∨ n ≤ j → factorizeLTL sqrt n H i j = H i j) :=
+  ltl_factor sqrt n H hsym (fun m hm => hs _ (hP m hm))
+example : (∀ x : Rat, (x = 1 ∨ x = 4 ∨ x = 9) → Ex.sqrtQ x * Ex.sqrtQ x = x ∧ Ex.sqrtQ x ≠ 0)
+    ∧ (∀ m, m < 3 → (fun x : Rat => x = 1 ∨ x = 4 ∨ x = 9) (ltlPivot Ex.sqrtQ 3 Ex.H m)) := by
+  refine ⟨Ex.sqrtQ_exact, ?_⟩
+  decide +kernel
+
+/-! ## 4. factorise and solve: `H x = b` -/
+
+/-- **ltl_solves**: with `L = SparseFactorizeLTL(H)`, the calls `SparseSolveLTx (L, x)` and then
+    `SparseSolveLx (L, x)` turn `x = b` into the solution of `H x = b` (the way
+    `ForwardDynamicsConstraintsRangeSpaceSparse` and `SolveConstrainedSystemRangeSpaceSparse` use
+    them). -/
+theorem ltl_solves (sqrt : α → α) (n : Nat) (H : MatN α) (b : VecN α)
+    (hsym : ∀ i j, i < n → j < n → H i j = H j i)
+    (hsq : ∀ m, m < n →
+      sqrt (ltlPivot sqrt n H m) * sqrt (ltlPivot sqrt n H m) = ltlPivot sqrt n H m
+      ∧ sqrt (ltlPivot sqrt n H m) ≠ 0) :
+    ∀ i, i < n →
+      sumTo n (fun j => H i j *
+        solveLx n (factorizeLTL sqrt n H) (solveLTx n (factorizeLTL sqrt n H) b) j) = b i := by
+  obtain ⟨hu, hf, hd, _⟩ := ltl_factor sqrt n H hsym hsq
+  intro i hi
+  have e : sumTo n (fun j => H i j *
+        solveLx n (factorizeLTL sqrt n H) (solveLTx n (factorizeLTL sqrt n H) b) j)
+      = sumTo n (fun j =>
+          sumTo n (fun k => factorizeLTL sqrt n H k i * factorizeLTL sqrt n H k j) *
+          solveLx n (factorizeLTL sqrt n H) (solveLTx n (factorizeLTL sqrt n H) b) j) := by
+    apply sumTo_congr; intro j hj; rw [hf i j hi hj]
+  rw [e, ltl_mulVec]
+  rw [← solveLTx_solves n (factorizeLTL sqrt n H) b hd hu i hi]
+  apply sumTo_congr; intro k hk
+  rw [solveLx_solves n (factorizeLTL sqrt n H) _ hd hu k hk]
+example : ∀ i, i < 3 →
+    sumTo 3 (fun j => Ex.H i j *
+      solveLx 3 (factorizeLTL Ex.sqrtQ 3 Ex.H) (solveLTx 3 (factorizeLTL Ex.sqrtQ 3 Ex.H) Ex.b) j)
+      = Ex.b i :=
+  ltl_solves Ex.sqrtQ 3 Ex.H Ex.b Ex.H_symm Ex.H_roots
+
+/-! ## 5. the routines as written in the C++ (walks over `lambda_q`) -/
+
+/-- for the parent array of a well-formed model (`lambda_q[k] = k-1`) the routines with the
+    `while (j != 0) { …; j = lambda_q[j]; }` walks are the dense ones above, so theorems 1-4 hold for
+    them -/
+theorem sparse_chain (lq : Nat → Nat) (sqrt : α → α) (n : Nat) (M : MatN α) (x : VecN α)
+    (hlq : ∀ k, 1 ≤ k → k ≤ n → lq k = k - 1) :
+    solveLxG lq n M x = solveLx n M x ∧ solveLTxG lq n M x = solveLTx n M x
+    ∧ factorizeLTLG lq sqrt n M = factorizeLTL sqrt n M :=
+  ⟨solveLxG_chain lq n M x hlq, solveLTxG_chain lq n M x hlq, factorizeLTLG_chain lq sqrt n M hlq⟩
+example : ∀ k, 1 ≤ k → k ≤ 3 → Ex.lq k = k - 1 := Ex.lq_chain
+
+end LTL
+
 end Rbdl.C03
